@@ -31,9 +31,11 @@ FaultsRetried(log) == \A i \in 1..Len(log) : log[i].k = "fault" =>
 (* DISCONNECTED; "disc" in the log) - an echo of the DISCONNECT command alone is not the end of the session          *)
 CloseAfterDisc(log) == \A i \in 1..Len(log) : log[i].k = "closeRet" => \E j \in 1..(i - 1) : log[j].k = "disc"
 TCloseLog == IsEvent("CloseLog") /\ CloseAfterDisc(Ev.log) /\ UNCHANGED dummy /\ Consume
+(* receivers the library evicted for not taking a control message within 500 ms (its own debug log) *)
+TStarved == IsEvent("Starved") /\ UNCHANGED dummy /\ Consume
 TTncLog == IsEvent("TncLog") /\ FlushSound(Ev.log) /\ UNCHANGED dummy /\ Consume
 TTncFaults == IsEvent("TncFaults") /\ FaultsRetried(Ev.log) /\ UNCHANGED dummy /\ Consume
 
-TraceNext == TApi \/ TReads \/ TTncData \/ TRetransmit \/ TPtt \/ TExchange \/ TMalformed \/ TCrash \/ TTncLog \/ TTncFaults \/ TCloseLog
+TraceNext == TApi \/ TReads \/ TTncData \/ TRetransmit \/ TPtt \/ TExchange \/ TMalformed \/ TCrash \/ TStarved \/ TTncLog \/ TTncFaults \/ TCloseLog
 TraceSpec == TraceInit /\ [][TraceNext]_<<dummy, tvars>>
 =============================================================================
